@@ -142,7 +142,7 @@ class IonoStub(Stub):
         return A(E.axes, sc, E.dom)
 
 
-def radio_call(ck):
+def radio_call(ck, skip_defined=False):
     from nuspacesim.simulation.eas_radio import radio as RM
 
     qn = "radio:EASRadio.__call__"
@@ -203,7 +203,7 @@ def radio_call(ck):
                  clause="the field (hence the SNR) is linear in the shower energy (energy-free sub-terms abstracted)")
         # finite: every division / arcsin / sqrt / arccos applied inside its domain for the in-range events
         cnt = {}
-        for cond, what, dom, where, pc in p.defined:
+        for cond, what, dom, where, pc in ([] if skip_defined else p.defined):
             cnt[what] = cnt.get(what, 0) + 1
             # deductive for the conditions that involve the decay length only; the geometric ones (distance ratio,
             # arccos / arcsin arguments) need the full decay triangle and are left to the bounded native run
